@@ -4,6 +4,9 @@ import (
 	"fmt"
 	"math/rand"
 	"os"
+	"os/exec"
+	"strconv"
+	"strings"
 	"time"
 
 	"pxverif/core"
@@ -128,6 +131,9 @@ func init() {
 		Assumptions: []string{seqAssumption},
 		Cases:       func(t string) int { return tierN(t, 1600, 40000) },
 		RunCase: func(c *CaseCtx) *CaseResult {
+			if c.Idx%100 == 99 {
+				return taskOrderCase(c)
+			}
 			o := admissionOpts(c.Idx + 5)
 			o.HTTP = c.Idx%2 == 0
 			o.Pipe.MaxTasks = 5
@@ -162,6 +168,11 @@ func init() {
 		Cases:       func(t string) int { return tierN(t, 1200, 543*3+30000) },
 		RunCase: func(c *CaseCtx) *CaseResult {
 			o := graphOpts(c.Idx, c.Tier)
+			if c.Idx%12 == 11 && !(c.Tier == "thorough" && c.Idx < 543*3) {
+				// schedules: concurrent clients, tasks finishing by themselves in random order and with random failures;
+				// exactly-once and dependency order judged offline over the event log
+				return linCase(c, "C02")
+			}
 			if c.Tier == "thorough" && c.Idx < 543*3 {
 				edges := allDAG4[c.Idx/3]
 				perm := c.Idx % 3
@@ -444,4 +455,85 @@ func init() {
 		MinDistinct: 25,
 		WorkerTimeout: func(t string) time.Duration { return 30 * time.Minute },
 	})
+}
+
+// taskOrderCase: the reported task order depends only on the definition - the same definition gives the same order in this
+// process (20 jobs; Go randomises map iteration per iteration) and in two other processes
+func taskOrderCase(c *CaseCtx) *CaseResult {
+	res := &CaseResult{Idx: c.Idx}
+	own := taskOrders(c.Seed)
+	res.Evaluations = 1
+	res.Situations = []string{"task order compared across 3 processes"}
+	exe, _ := os.Executable()
+	for i := 0; i < 2; i++ {
+		out, err := exec.Command(exe, "taskorder", fmt.Sprint(c.Seed)).Output()
+		if err != nil {
+			res.Inconclusive = "taskorder child: " + err.Error()
+			return res
+		}
+		if strings.TrimSpace(string(out)) != own {
+			res.Findings = append(res.Findings, drv.Finding{Props: []string{"C15"}, Sig: "C15:task-order-not-deterministic", Detail: fmt.Sprintf("the same definition lists its tasks as %q in another process and as %q here", strings.TrimSpace(string(out)), own), Step: -1})
+		}
+	}
+	if strings.Contains(own, "DIFFERS") {
+		res.Findings = append(res.Findings, drv.Finding{Props: []string{"C15"}, Sig: "C15:task-order-not-deterministic", Detail: "two jobs of the same definition list their tasks in different orders: " + own, Step: -1})
+	}
+	return res
+}
+
+// taskOrders schedules the same generated definitions 20 times and returns the task orders (one line)
+func taskOrders(seed int64) string {
+	r := rand.New(rand.NewSource(seed))
+	specs := drv.GenSpecs(r, drv.HistOpts{NPipes: 3, Pipe: gen.PipeOpts{MaxTasks: 8}})
+	for i := range specs {
+		specs[i].Def.Concurrency = 50
+		specs[i].Def.StartDelay = 0
+		specs[i].Def.QueueLimit = nil
+	}
+	var parts []string
+	for _, sp := range specs {
+		first := ""
+		for k := 0; k < 20; k++ {
+			sys, err := core.NewSys(gen.BuildDefs([]gen.PipeSpec{sp}), nil, nil)
+			if err != nil {
+				return "error " + err.Error()
+			}
+			id, cls := sys.Schedule(0, sp.Name, nil, "u")
+			order := cls
+			if j, ok := sys.ReadJob(id); ok {
+				var names []string
+				for _, t := range j.Tasks {
+					names = append(names, t.Name)
+				}
+				order = strings.Join(names, ",")
+			}
+			for i := 0; i < 100; i++ {
+				w := sys.Gates.Waiting()
+				if len(w) == 0 && i > 2 {
+					break
+				}
+				for _, k := range w {
+					sys.Gates.Release(k[0], k[1], core.Outcome{Kind: core.OutOK})
+				}
+				time.Sleep(200 * time.Microsecond)
+			}
+			sys.Close()
+			if k == 0 {
+				first = order
+			} else if order != first {
+				first += " DIFFERS " + order
+				break
+			}
+		}
+		parts = append(parts, sp.Name+"="+first)
+	}
+	return strings.Join(parts, ";")
+}
+
+func init() {
+	auxCommands["taskorder"] = func(args []string) int {
+		seed, _ := strconv.ParseInt(args[0], 10, 64)
+		fmt.Println(taskOrders(seed))
+		return 0
+	}
 }
